@@ -1293,9 +1293,35 @@ struct array : static_array<T, D, Alloc> {
 	}
 
 #ifndef NOEXCEPT_ASSIGNMENT
-	auto operator=(array&& other) noexcept -> array& {
+	auto operator=(array&& other) noexcept(
+		   multi::allocator_traits<typename array::allocator_type>::propagate_on_container_move_assignment::value
+		|| multi::allocator_traits<typename array::allocator_type>::is_always_equal::value
+	) -> array& {
 		if(this == std::addressof(other)) {
 			return *this;
+		}
+		if constexpr(
+			   !multi::allocator_traits<typename array::allocator_type>::propagate_on_container_move_assignment::value
+			&& !multi::allocator_traits<typename array::allocator_type>::is_always_equal::value
+		) {
+			if(this->alloc() != other.alloc()) {  // a block cannot change allocators: move the elements into storage of this allocator
+				if(array::extensions() == other.extensions()) {
+					static_::operator=(std::move(other));
+				} else {
+					clear();
+					this->base_ = array::array_alloc::allocate(static_cast<typename multi::allocator_traits<typename array::allocator_type>::size_type>(other.num_elements()));
+					this->layout_mutable() = other.layout();
+					try {
+						array::array_alloc::uninitialized_move_n(other.data_elements(), other.num_elements(), this->data_elements());
+					} catch(...) {
+						this->deallocate();
+						this->layout_mutable() = typename array::layout_type(typename array::extensions_type{});
+						throw;
+					}
+				}
+				other.clear();
+				return *this;
+			}
 		}
 		clear();
 		this->base_ = other.base_;
